@@ -9,6 +9,20 @@ set_option linter.unusedVariables false
 namespace Proofs.Resolve
 open Pywbem.Model.Resolve Pywbem.Proto
 
+/-- equality of model results is decidable (used by the closed `decide` witnesses) -/
+instance instDecEqExcept {ε α : Type} [DecidableEq ε] [DecidableEq α] : DecidableEq (Except ε α)
+  | .ok a, .ok b => if h : a = b then isTrue (by rw [h]) else isFalse (by intro h'; injection h' with h''; exact h h'')
+  | .error a, .error b =>
+    if h : a = b then isTrue (by rw [h]) else isFalse (by intro h'; injection h' with h''; exact h h'')
+  | .ok _, .error _ => isFalse (by intro h; cases h)
+  | .error _, .ok _ => isFalse (by intro h; cases h)
+
+/-- the value of a successful model result (`d` otherwise) -/
+def okOr {α : Type} (x : Except PyExc α) (d : α) : α :=
+  match x with
+  | .ok a => a
+  | .error _ => d
+
 /-! ### case-insensitive equality is an equivalence -/
 
 theorem ieq_refl (a : Name) : ieq a a = true := by simp [ieq]
@@ -108,5 +122,946 @@ theorem stageLocal_header (c : Cls) (f : Flags) :
     (stageLocal c f).name = c.name ∧ (stageLocal c f).super = c.super ∧ (stageLocal c f).quals = c.quals := by
   unfold stageLocal filterProps localOnly
   cases f.pl <;> by_cases hlo : f.lo = some false <;> simp [hlo]
+
+/-! ### the class hierarchy -/
+
+open Spec in
+theorem mem_children {cs : List Cls} {a x : Name} :
+    x ∈ children cs (some a) ↔ ∃ c ∈ cs, c.name = x ∧ Spec.IsChild c a := by
+  simp only [children, List.mem_map, List.mem_filter, Spec.IsChild]
+  constructor
+  · rintro ⟨c, ⟨hc, hs⟩, rfl⟩
+    refine ⟨c, hc, rfl, ?_⟩
+    cases hsup : c.super with
+    | none => simp [hsup] at hs
+    | some s =>
+      simp [hsup] at hs
+      exact ⟨s, rfl, by intro h; simp [h] at hs, hs.2⟩
+  · rintro ⟨c, hc, rfl, s, hs, hne, hi⟩
+    refine ⟨c, ⟨hc, ?_⟩, rfl⟩
+    simp [hs, hi, hne]
+
+theorem mem_subNamesDeep_succ {cs : List Cls} {a x : Name} {f : Nat} :
+    x ∈ subNamesDeep (f + 1) cs (some a) ↔
+      x ∈ children cs (some a) ∨ ∃ m ∈ children cs (some a), x ∈ subNamesDeep f cs (some m) := by
+  simp only [subNamesDeep, List.mem_append, List.mem_flatten, List.mem_map]
+  constructor
+  · rintro (h | ⟨l, ⟨m, hm, rfl⟩, hx⟩)
+    · exact Or.inl h
+    · exact Or.inr ⟨m, hm, hx⟩
+  · rintro (h | ⟨m, hm, hx⟩)
+    · exact Or.inl h
+    · exact Or.inr ⟨_, ⟨m, hm, rfl⟩, hx⟩
+
+theorem isChild_congr {c : Cls} {a b : Name} (h : ieq a b = true) (hc : Spec.IsChild c a) :
+    Spec.IsChild c b := by
+  obtain ⟨s, hs, hne, hi⟩ := hc
+  exact ⟨s, hs, hne, ieq_trans hi h⟩
+
+/-- composing downwards: a descendant of a child of `a` is a descendant of `a` -/
+theorem desc_of_child_desc' {cs : List Cls} {d : Cls} {a x m : Name} (hd : d ∈ cs)
+    (hda : Spec.IsChild d a) (h : Spec.Desc cs x m) (hm : m = d.name) : Spec.Desc cs x a := by
+  induction h with
+  | child hc hch => subst hm; exact .trans (.child hd hda) hc hch
+  | trans _ hc hch ih => exact .trans (ih hm) hc hch
+
+theorem desc_of_child_desc {cs : List Cls} {d : Cls} {a x : Name} (hd : d ∈ cs)
+    (hda : Spec.IsChild d a) (h : Spec.Desc cs x d.name) : Spec.Desc cs x a :=
+  desc_of_child_desc' hd hda h rfl
+
+/-- **soundness** of the recursive enumeration (any fuel, any store) -/
+theorem subNamesDeep_sound {cs : List Cls} :
+    ∀ {f : Nat} {a x : Name}, x ∈ subNamesDeep f cs (some a) → Spec.Desc cs x a
+  | 0, a, x, h => by simp [subNamesDeep] at h
+  | f + 1, a, x, h => by
+    rcases mem_subNamesDeep_succ.mp h with h | ⟨m, hm, hx⟩
+    · obtain ⟨c, hc, rfl, hch⟩ := mem_children.mp h
+      exact .child hc hch
+    · obtain ⟨d, hd, rfl, hda⟩ := mem_children.mp hm
+      exact desc_of_child_desc hd hda (subNamesDeep_sound hx)
+
+theorem subNamesDeep_mono_fuel {cs : List Cls} :
+    ∀ {f : Nat} {a x : Name}, x ∈ subNamesDeep f cs (some a) → x ∈ subNamesDeep (f + 1) cs (some a)
+  | 0, a, x, h => by simp [subNamesDeep] at h
+  | f + 1, a, x, h => by
+    rcases mem_subNamesDeep_succ.mp h with h | ⟨m, hm, hx⟩
+    · exact mem_subNamesDeep_succ.mpr (Or.inl h)
+    · exact mem_subNamesDeep_succ.mpr (Or.inr ⟨m, hm, subNamesDeep_mono_fuel hx⟩)
+
+theorem subNamesDeep_mono_fuel_le {cs : List Cls} {f g : Nat} {a x : Name} (hfg : f ≤ g)
+    (h : x ∈ subNamesDeep f cs (some a)) : x ∈ subNamesDeep g cs (some a) := by
+  induction hfg with
+  | refl => exact h
+  | step _ ih => exact subNamesDeep_mono_fuel ih
+
+theorem children_mono_store {cs cs' : List Cls} (hsub : ∀ c ∈ cs, c ∈ cs') {a x : Name}
+    (h : x ∈ children cs (some a)) : x ∈ children cs' (some a) := by
+  obtain ⟨c, hc, rfl, hch⟩ := mem_children.mp h
+  exact mem_children.mpr ⟨c, hsub c hc, rfl, hch⟩
+
+theorem subNamesDeep_mono_store {cs cs' : List Cls} (hsub : ∀ c ∈ cs, c ∈ cs') :
+    ∀ {f : Nat} {a x : Name}, x ∈ subNamesDeep f cs (some a) → x ∈ subNamesDeep f cs' (some a)
+  | 0, a, x, h => by simp [subNamesDeep] at h
+  | f + 1, a, x, h => by
+    rcases mem_subNamesDeep_succ.mp h with h | ⟨m, hm, hx⟩
+    · exact mem_subNamesDeep_succ.mpr (Or.inl (children_mono_store hsub h))
+    · exact mem_subNamesDeep_succ.mpr
+        (Or.inr ⟨m, children_mono_store hsub hm, subNamesDeep_mono_store hsub hx⟩)
+
+/-- closure: one more level below an enumerated class is enumerated with one more unit of fuel -/
+theorem subNamesDeep_extend {cs : List Cls} {d : Cls} (hd : d ∈ cs) :
+    ∀ {f : Nat} {a m : Name}, m ∈ subNamesDeep f cs (some a) → Spec.IsChild d m →
+      d.name ∈ subNamesDeep (f + 1) cs (some a)
+  | 0, a, m, h, _ => by simp [subNamesDeep] at h
+  | f + 1, a, m, h, hdm => by
+    rcases mem_subNamesDeep_succ.mp h with h | ⟨m', hm', hx⟩
+    · refine mem_subNamesDeep_succ.mpr (Or.inr ⟨m, h, ?_⟩)
+      exact mem_subNamesDeep_succ.mpr (Or.inl (mem_children.mpr ⟨d, hd, rfl, hdm⟩))
+    · exact mem_subNamesDeep_succ.mpr (Or.inr ⟨m', hm', subNamesDeep_extend hd hx hdm⟩)
+
+/-- **Forest**: every class is new (case-insensitively) w.r.t. the classes stored before it, and its
+    superclass, if any, is one of those.  This is the shape CreateClass / add_cimobjects produce and
+    ModifyClass / DeleteClass keep; it excludes cycles, which is what makes the Python recursion of
+    `_get_subclass_names` and the loop of `_get_superclass_names` terminate. -/
+inductive Forest : List Cls → Prop where
+  | nil : Forest []
+  | snoc {cs : List Cls} {c : Cls} : Forest cs → hasClass cs c.name = false →
+      (∀ s, c.super = some s → s ≠ [] → hasClass cs s = true) → Forest (cs ++ [c])
+
+theorem forest_snoc_inv {cs : List Cls} {c : Cls} (h : Forest (cs ++ [c])) :
+    Forest cs ∧ hasClass cs c.name = false ∧ (∀ s, c.super = some s → s ≠ [] → hasClass cs s = true) := by
+  generalize hl : cs ++ [c] = l at h
+  cases h with
+  | nil => simp at hl
+  | @snoc cs' c' hf hfr hp =>
+    have := List.append_inj' hl (by simp)
+    obtain ⟨h1, h2⟩ := this
+    simp at h2
+    subst h1; subst h2
+    exact ⟨hf, hfr, hp⟩
+
+theorem hasClass_iff {cs : List Cls} {n : Name} : hasClass cs n = true ↔ ∃ c ∈ cs, ieq c.name n = true := by
+  simp [hasClass]
+
+theorem hasClass_false_iff {cs : List Cls} {n : Name} :
+    hasClass cs n = false ↔ ∀ c ∈ cs, ieq c.name n = false := by
+  simp [hasClass]
+
+/-- in a forest the newest class has no subclass (not even itself) -/
+theorem forest_last_leaf {cs : List Cls} {c : Cls} (h : Forest (cs ++ [c])) :
+    ∀ d ∈ cs ++ [c], ¬ Spec.IsChild d c.name := by
+  obtain ⟨hf, hfr, hp⟩ := forest_snoc_inv h
+  have key : ∀ {l : List Cls}, Forest l → (∀ x ∈ l, ieq x.name c.name = false) →
+      ∀ d ∈ l, ¬ Spec.IsChild d c.name := by
+    intro l hl
+    induction hl with
+    | nil => intro _ d hd; simp at hd
+    | @snoc l' e hl' hfe hpe ih =>
+      intro hall d hd ⟨s, hs, hne, hi⟩
+      simp at hd
+      rcases hd with hd | rfl
+      · exact ih (fun x hx => hall x (by simp [hx])) d hd ⟨s, hs, hne, hi⟩
+      · obtain ⟨p, hpm, hpi⟩ := hasClass_iff.mp (hpe s hs hne)
+        have : ieq p.name c.name = true := ieq_trans hpi hi
+        have h2 := hall p (by simp [hpm])
+        simp [this] at h2
+  intro d hd hch
+  simp at hd
+  rcases hd with hd | rfl
+  · exact key hf (hasClass_false_iff.mp hfr) d hd hch
+  · obtain ⟨s, hs, hne, hi⟩ := hch
+    obtain ⟨p, hpm, hpi⟩ := hasClass_iff.mp (hp s hs hne)
+    have := hasClass_false_iff.mp hfr p hpm
+    simp [ieq_trans hpi hi] at this
+
+/-- descendants in a store extended by a (leaf) class: either old, or the new class itself hanging
+    below an old descendant / below `a` -/
+theorem desc_snoc {cs : List Cls} {c : Cls} (h : Forest (cs ++ [c])) {x a : Name}
+    (hd : Spec.Desc (cs ++ [c]) x a) :
+    Spec.Desc cs x a ∨ (x = c.name ∧ (Spec.IsChild c a ∨ ∃ m, Spec.Desc cs m a ∧ Spec.IsChild c m)) := by
+  have leaf := forest_last_leaf h
+  induction hd with
+  | @child d a hdm hch =>
+    simp at hdm
+    rcases hdm with hdm | rfl
+    · exact Or.inl (.child hdm hch)
+    · exact Or.inr ⟨rfl, Or.inl hch⟩
+  | @trans d m a hma hdm hch ih =>
+    rcases ih with ih | ⟨rfl, _⟩
+    · simp at hdm
+      rcases hdm with hdm | rfl
+      · exact Or.inl (.trans ih hdm hch)
+      · exact Or.inr ⟨rfl, Or.inr ⟨m, ih, hch⟩⟩
+    · exact absurd hch (leaf d hdm)
+
+/-- **completeness** of the recursive enumeration on a forest: `classes.length` units of fuel reach
+    every descendant (the code's recursion depth is bounded by the number of classes) -/
+theorem subNamesDeep_complete {cs : List Cls} (h : Forest cs) :
+    ∀ {x a : Name}, Spec.Desc cs x a → x ∈ subNamesDeep cs.length cs (some a) := by
+  induction h with
+  | nil => intro x a hd; cases hd with
+    | child hc _ => simp at hc
+    | trans _ hc _ => simp at hc
+  | @snoc cs c hf hfr hp ih =>
+    intro x a hd
+    have hF : Forest (cs ++ [c]) := .snoc hf hfr hp
+    have hsub : ∀ e ∈ cs, e ∈ cs ++ [c] := fun e he => by simp [he]
+    have hlen : (cs ++ [c]).length = cs.length + 1 := by simp
+    rw [hlen]
+    rcases desc_snoc hF hd with hold | ⟨rfl, hca | ⟨m, hm, hcm⟩⟩
+    · exact subNamesDeep_mono_fuel (subNamesDeep_mono_store hsub (ih hold))
+    · exact mem_subNamesDeep_succ.mpr (Or.inl (mem_children.mpr ⟨c, by simp, rfl, hca⟩))
+    · exact subNamesDeep_extend (by simp) (subNamesDeep_mono_store hsub (ih hm)) hcm
+
+/-- on a forest the deep enumeration is exactly the descendant relation -/
+theorem mem_subNames_deep {cs : List Cls} (h : Forest cs) {x a : Name} :
+    x ∈ subNames cs (some a) true ↔ Spec.Desc cs x a := by
+  simp only [subNames, if_true]
+  exact ⟨subNamesDeep_sound, fun hd => subNamesDeep_mono_fuel (subNamesDeep_complete h hd)⟩
+
+/-! ### what successful operations do to the store -/
+
+theorem findClass_some {cs : List Cls} {n : Name} {c : Cls} (h : findClass cs n = some c) :
+    c ∈ cs ∧ ieq c.name n = true := by
+  unfold findClass at h
+  have h1 := List.mem_of_find?_eq_some h
+  have h2 := List.find?_some h
+  exact ⟨h1, by simpa using h2⟩
+
+theorem findClass_some_hasClass {cs : List Cls} {n : Name} {c : Cls} (h : findClass cs n = some c) :
+    hasClass cs n = true :=
+  hasClass_iff.mpr ⟨c, (findClass_some h).1, (findClass_some h).2⟩
+
+theorem findClass_none {cs : List Cls} {n : Name} (h : findClass cs n = none) : hasClass cs n = false := by
+  unfold findClass at h
+  apply hasClass_false_iff.mpr
+  intro c hc
+  have := List.find?_eq_none.mp h c hc
+  simpa using this
+
+theorem resolveParts_ok {decls : List QDecl} {c r : Cls} {sup : Option Cls}
+    (h : resolveParts decls c sup = .ok r) :
+    ∃ cq ps ms, resolveQuals decls c.quals [] false = .ok cq ∧
+      resolveElems decls c.name c.props (sup.map (·.props)) = .ok ps ∧
+      resolveElems decls c.name c.meths (sup.map (·.meths)) = .ok ms ∧
+      r = { c with super := normSuper c.super, quals := cq, props := ps, meths := ms } := by
+  unfold resolveParts at h
+  cases h1 : resolveQuals decls c.quals [] false with
+  | error e => simp [h1] at h
+  | ok cq =>
+    cases h2 : resolveElems decls c.name c.props (sup.map (·.props)) with
+    | error e => simp [h1, h2] at h
+    | ok ps =>
+      cases h3 : resolveElems decls c.name c.meths (sup.map (·.meths)) with
+      | error e => simp [h1, h2, h3] at h
+      | ok ms =>
+        simp [h1, h2, h3] at h
+        exact ⟨cq, ps, ms, rfl, rfl, rfl, h.symm⟩
+
+theorem findSuper_ok {cs : List Cls} {c : Cls} {sup : Option Cls} (h : findSuper cs c = .ok sup) :
+    (∀ s, c.super = some s → s ≠ [] → findClass cs s = sup ∧ sup.isSome) ∧
+    ((c.super = none ∨ c.super = some []) → sup = none) := by
+  unfold findSuper at h
+  cases hs : c.super with
+  | none => simp [hs] at h; simp [h]
+  | some s =>
+    by_cases he : s = []
+    · subst he; simp [hs] at h; simp [← h]
+    · cases hf : findClass cs s with
+      | none => simp [hs, he, hf] at h
+      | some sc =>
+        simp [hs, he, hf] at h
+        subst h
+        constructor
+        · intro s' hs' _; cases hs'; simp [hf]
+        · rintro (h | h) <;> simp_all
+
+/-- what a successful class resolution keeps: name, superclass name; and the superclass exists -/
+theorem resolveClass_ok {decls : List QDecl} {cs : List Cls} {c r : Cls}
+    (h : resolveClass decls cs c = .ok r) :
+    r.name = c.name ∧ r.super = normSuper c.super ∧
+    (∀ s, c.super = some s → s ≠ [] → hasClass cs s = true) := by
+  unfold resolveClass at h
+  cases h1 : findSuper cs c with
+  | error e => simp [h1] at h
+  | ok sup =>
+    cases h2 : validateClass decls c sup with
+    | error e => simp [h1, h2] at h
+    | ok u =>
+      simp [h1, h2] at h
+      obtain ⟨cq, ps, ms, _, _, _, rfl⟩ := resolveParts_ok h
+      refine ⟨rfl, rfl, ?_⟩
+      intro s hs hne
+      obtain ⟨hf, hsome⟩ := (findSuper_ok h1).1 s hs hne
+      cases sup with
+      | none => simp at hsome
+      | some sc => exact findClass_some_hasClass hf
+
+/-! ### Forest is kept by replacement and by upward-closed filtering -/
+
+theorem replace_name_ieq (r x : Cls) :
+    ieq (if ieq x.name r.name then r else x).name x.name = true := by
+  by_cases h : ieq x.name r.name = true
+  · simp [h]; exact ieq_symm h
+  · simp [h]; exact ieq_refl _
+
+theorem hasClass_replace {cs : List Cls} {r : Cls} {n : Name} :
+    hasClass (replaceClass cs r) n = hasClass cs n := by
+  unfold hasClass replaceClass
+  rw [List.any_map]
+  congr 1
+  funext x
+  exact ieq_congr_left (replace_name_ieq r x)
+
+/-- the superclass named by `b` is (case-insensitively) the one named by `a` -/
+def SuperCompat (a b : Option Name) : Prop :=
+  ∀ s, b = some s → s ≠ [] → ∃ s', a = some s' ∧ s' ≠ [] ∧ ieq s' s = true
+
+theorem forest_replace {cs : List Cls} {r : Cls} (hf : Forest cs)
+    (hcompat : ∀ x ∈ cs, ieq x.name r.name = true → SuperCompat x.super r.super) :
+    Forest (replaceClass cs r) := by
+  induction hf with
+  | nil => exact .nil
+  | @snoc cs c hf hfr hp ih =>
+    have ih' := ih (fun x hx => hcompat x (by simp [hx]))
+    have : replaceClass (cs ++ [c]) r = replaceClass cs r ++ [if ieq c.name r.name then r else c] := by
+      simp [replaceClass]
+    rw [this]
+    refine .snoc ih' ?_ ?_
+    · rw [hasClass_replace, ← hfr]
+      exact congrArg _ rfl |>.trans (by
+        unfold hasClass
+        congr 1; funext x
+        exact ieq_congr_right (replace_name_ieq r c))
+    · intro s hs hne
+      rw [hasClass_replace]
+      by_cases h : ieq c.name r.name = true
+      · simp [h] at hs
+        obtain ⟨s', hs', hne', hi⟩ := hcompat c (by simp) h s hs hne
+        have := hp s' hs' hne'
+        obtain ⟨p, hpm, hpi⟩ := hasClass_iff.mp this
+        exact hasClass_iff.mpr ⟨p, hpm, ieq_trans hpi hi⟩
+      · simp [h] at hs
+        exact hp s hs hne
+
+theorem forest_filter {cs : List Cls} (hf : Forest cs) (keep : Cls → Bool)
+    (hup : ∀ d ∈ cs, keep d = true → ∀ p ∈ cs, Spec.IsChild d p.name → keep p = true) :
+    Forest (cs.filter keep) := by
+  induction hf with
+  | nil => exact .nil
+  | @snoc cs c hf hfr hp ih =>
+    have ih' := ih (fun d hd hk p hp' hch => hup d (by simp [hd]) hk p (by simp [hp']) hch)
+    rw [List.filter_append]
+    by_cases hk : keep c = true
+    · have : List.filter keep [c] = [c] := by simp [hk]
+      rw [this]
+      refine .snoc ih' ?_ ?_
+      · apply hasClass_false_iff.mpr
+        intro x hx
+        exact hasClass_false_iff.mp hfr x (List.mem_filter.mp hx).1
+      · intro s hs hne
+        obtain ⟨p, hpm, hpi⟩ := hasClass_iff.mp (hp s hs hne)
+        have hkp : keep p = true :=
+          hup c (by simp) hk p (by simp [hpm]) ⟨s, hs, hne, ieq_symm hpi⟩
+        exact hasClass_iff.mpr ⟨p, List.mem_filter.mpr ⟨hpm, hkp⟩, hpi⟩
+    · have : List.filter keep [c] = [] := by simp [hk]
+      rw [this]; simpa using ih'
+
+/-- in a forest, stored names are pairwise different even up to case -/
+theorem forest_unique {cs : List Cls} (hf : Forest cs) :
+    ∀ p ∈ cs, ∀ q ∈ cs, ieq p.name q.name = true → p = q := by
+  induction hf with
+  | nil => intro p hp; simp at hp
+  | @snoc cs c hf hfr hp ih =>
+    intro p hpm q hqm hi
+    simp at hpm hqm
+    have hfr' := hasClass_false_iff.mp hfr
+    rcases hpm with hpm | rfl <;> rcases hqm with hqm | rfl
+    · exact ih p hpm q hqm hi
+    · have := hfr' p hpm; simp [hi] at this
+    · have := hfr' q hqm; simp [ieq_symm hi] at this
+    · rfl
+
+/-! ### successful CreateClass / add_cimobjects / ModifyClass -/
+
+theorem createClass_ok {s s' : State} {c : Cls} (h : createClass s c = .ok s') :
+    ∃ r, resolveClass s.decls s.classes c = .ok r ∧ s' = { s with classes := s.classes ++ [r] } ∧
+      hasClass s.classes c.name = false := by
+  unfold createClass at h
+  by_cases h0 : hasClass s.classes c.name = true
+  · simp [h0] at h
+  · simp [h0] at h
+    cases h1 : validateDeps s.classes c with
+    | error e => simp [h1] at h
+    | ok u =>
+      cases h2 : resolveClass s.decls s.classes c with
+      | error e => simp [h1, h2] at h
+      | ok r =>
+        simp [h1, h2] at h
+        exact ⟨r, rfl, h.symm, by simpa using h0⟩
+
+theorem addClass_ok {s s' : State} {c : Cls} (h : addClass s c = .ok s') :
+    ∃ r, resolveClass s.decls s.classes c = .ok r ∧ s' = { s with classes := s.classes ++ [r] } ∧
+      hasClass s.classes c.name = false := by
+  unfold addClass at h
+  by_cases hm : (superSet c.super && !(hasClass s.classes (c.super.getD []))) = true
+  · simp [hm] at h
+  · simp only [hm] at h
+    cases h2 : resolveClass s.decls s.classes c with
+    | error e => simp [h2] at h
+    | ok r =>
+      simp [h2] at h
+      by_cases h0 : hasClass s.classes c.name = true
+      · simp [h0] at h
+      · simp [h0] at h
+        exact ⟨r, rfl, h.symm, by simpa using h0⟩
+
+theorem superSet_iff {o : Option Name} : superSet o = true ↔ ∃ s, o = some s ∧ s ≠ [] := by
+  cases o with
+  | none => simp [superSet]
+  | some s => simp [superSet]
+
+theorem normSuper_some {o : Option Name} {s : Name} (h : normSuper o = some s) : o = some s ∧ s ≠ [] := by
+  unfold normSuper at h
+  by_cases hs : superSet o = true
+  · simp [hs] at h
+    obtain ⟨s', hs', hne⟩ := superSet_iff.mp hs
+    subst h; simp at hs'; subst hs'; exact ⟨rfl, hne⟩
+  · simp [hs] at h
+
+theorem modifyClass_ok {s s' : State} {c : Cls} (h : modifyClass s c = .ok s') :
+    ∃ orig r, findClass s.classes c.name = some orig ∧ resolveClass s.decls s.classes c = .ok r ∧
+      s' = { s with classes := replaceClass s.classes r } ∧
+      children s.classes (some c.name) = [] ∧
+      (∀ i ∈ s.insts, ieq i.cls c.name = false) ∧
+      SuperCompat orig.super (normSuper c.super) := by
+  unfold modifyClass at h
+  cases hf : findClass s.classes c.name with
+  | none => simp [hf] at h
+  | some orig =>
+    simp only [hf] at h
+    split at h
+    · simp at h
+    · rename_i hch
+      split at h
+      · simp at h
+      · rename_i hin
+        split at h
+        · simp at h
+        · rename_i hs1
+          split at h
+          · simp at h
+          · rename_i hs2
+            split at h
+            · simp at h
+            · rename_i hs3
+              cases h1 : validateDeps s.classes c with
+              | error e => simp [h1] at h
+              | ok u =>
+                cases h2 : resolveClass s.decls s.classes c with
+                | error e => simp [h1, h2] at h
+                | ok r =>
+                  simp [h1, h2] at h
+                  refine ⟨orig, r, rfl, rfl, h.symm, by simpa using hch, ?_, ?_⟩
+                  · intro i hi
+                    simp at hin
+                    have := hin i hi
+                    simpa using this
+                  · intro sn hsn hne
+                    obtain ⟨hcs, _⟩ := normSuper_some hsn
+                    have hset : superSet c.super = true := superSet_iff.mpr ⟨sn, hcs, hne⟩
+                    simp [hset] at hs2 hs3
+                    obtain ⟨so, hso, hsone⟩ := superSet_iff.mp hs2
+                    refine ⟨so, hso, hsone, ?_⟩
+                    have := hs3 hs2
+                    simpa [hso, hcs] using this
+
+/-! ### DeleteClass -/
+
+theorem ieq_comm (a b : Name) : ieq a b = ieq b a := by
+  simp only [ieq]
+  exact Bool.eq_iff_iff.mpr ⟨fun h => by simpa using (by simpa using h : lower a = lower b).symm,
+    fun h => by simpa using (by simpa using h : lower b = lower a).symm⟩
+
+theorem inNames_iff {l : List Name} {n : Name} : inNames l n = true ↔ ∃ x ∈ l, ieq x n = true := by
+  simp [inNames]
+
+theorem inNames_mono {l l' : List Name} (h : ∀ x ∈ l, x ∈ l') {n : Name} (hn : inNames l n = true) :
+    inNames l' n = true := by
+  obtain ⟨x, hx, hi⟩ := inNames_iff.mp hn
+  exact inNames_iff.mpr ⟨x, h x hx, hi⟩
+
+theorem mem_subtreeList {cs : List Cls} {n x : Name} :
+    x ∈ subtreeList cs n ↔ x ∈ subNames cs (some n) true ∨ x = n := by
+  simp [subtreeList]
+
+/-- the subtree list computed on a smaller store (a sub-collection of `cs0`) is contained in the one
+    computed on `cs0` -/
+theorem subtreeList_mono {cs cs0 : List Cls} (hsub : ∀ c ∈ cs, c ∈ cs0) (hlen : cs.length ≤ cs0.length)
+    {n x : Name} (h : x ∈ subtreeList cs n) : x ∈ subtreeList cs0 n := by
+  rcases mem_subtreeList.mp h with h | rfl
+  · refine mem_subtreeList.mpr (Or.inl ?_)
+    simp only [subNames, if_true] at h ⊢
+    exact subNamesDeep_mono_fuel_le (by omega) (subNamesDeep_mono_store hsub h)
+  · exact mem_subtreeList.mpr (Or.inr rfl)
+
+theorem deleteStep_ok {root clname : Name} {s s' : State} (h : deleteStep root s clname = .ok s') :
+    s' = { s with insts := s.insts.filter (fun i => !(inNames (subtreeList s.classes root) i.cls)),
+                  classes := removeClass s.classes clname } := by
+  unfold deleteStep at h
+  by_cases h1 : hasClass s.classes root = true
+  · by_cases h2 : hasClass s.classes clname = true
+    · simp [h1, h2] at h; exact h.symm
+    · simp [h1, h2] at h
+  · simp [h1] at h
+
+theorem removeClass_mem {cs : List Cls} {n : Name} : ∀ c ∈ removeClass cs n, c ∈ cs := by
+  intro c hc; exact (List.mem_filter.mp hc).1
+
+theorem removeClass_length {cs : List Cls} {n : Name} : (removeClass cs n).length ≤ cs.length :=
+  List.length_filter_le _ _
+
+/-- the rest of the DeleteClass loop once the instances of the whole subtree are gone: only classes
+    are removed -/
+theorem delete_fold_rest {root : Name} {cs0 : List Cls} :
+    ∀ (names : List Name) (s s' : State),
+      (∀ c ∈ s.classes, c ∈ cs0) → s.classes.length ≤ cs0.length →
+      (∀ i ∈ s.insts, inNames (subtreeList cs0 root) i.cls = false) →
+      foldE (deleteStep root) s names = .ok s' →
+      s'.classes = s.classes.filter (fun c => !(inNames names c.name)) ∧ s'.insts = s.insts ∧
+        s'.decls = s.decls
+  | [], s, s', _, _, _, h => by
+    simp [foldE] at h; subst h
+    refine ⟨?_, rfl, rfl⟩
+    exact (List.filter_eq_self.mpr (by intro c _; simp [inNames])).symm
+  | x :: rest, s, s', hsub, hlen, hin, h => by
+    simp only [foldE] at h
+    cases hst : deleteStep root s x with
+    | error e => simp [hst] at h
+    | ok s1 =>
+      simp only [hst] at h
+      have hs1 := deleteStep_ok hst
+      have hi1 : s1.insts = s.insts := by
+        rw [hs1]
+        simp only
+        apply List.filter_eq_self.mpr
+        intro i hi
+        have h0 := hin i hi
+        cases hk : inNames (subtreeList s.classes root) i.cls with
+        | false => rfl
+        | true =>
+          have := inNames_mono (fun y hy => subtreeList_mono hsub hlen hy) hk
+          simp [this] at h0
+      have hc1 : s1.classes = removeClass s.classes x := by rw [hs1]
+      obtain ⟨r1, r2, r3⟩ := delete_fold_rest rest s1 s'
+        (by rw [hc1]; exact fun c hc => hsub c (removeClass_mem c hc))
+        (by rw [hc1]; exact Nat.le_trans removeClass_length hlen)
+        (by rw [hi1]; exact hin) h
+      refine ⟨?_, by rw [r2, hi1], by rw [r3, hs1]⟩
+      rw [r1, hc1, removeClass, List.filter_filter]
+      congr 1
+      funext c
+      simp [inNames, Bool.and_comm, ieq_comm c.name x]
+
+theorem deleteClass_ok {s s' : State} {n : Name} (h : deleteClass s n = .ok s') :
+    hasClass s.classes n = true ∧
+    s'.classes = s.classes.filter (fun c => !(inNames (subtreeList s.classes n) c.name)) ∧
+    s'.insts = s.insts.filter (fun i => !(inNames (subtreeList s.classes n) i.cls)) ∧
+    s'.decls = s.decls := by
+  unfold deleteClass at h
+  by_cases h0 : hasClass s.classes n = true
+  · simp only [h0] at h
+    simp at h
+    refine ⟨h0, ?_⟩
+    -- the name list is never empty: it ends with the class itself
+    cases hl : subtreeList s.classes n with
+    | nil => simp [subtreeList] at hl
+    | cons x rest =>
+      rw [hl] at h
+      simp only [foldE] at h
+      cases hst : deleteStep n s x with
+      | error e => simp [hst] at h
+      | ok s1 =>
+        simp only [hst] at h
+        have hs1 := deleteStep_ok hst
+        obtain ⟨r1, r2, r3⟩ := delete_fold_rest (cs0 := s.classes) rest s1 s'
+          (by rw [hs1]; exact fun c hc => removeClass_mem c hc)
+          (by rw [hs1]; exact removeClass_length)
+          (by rw [hs1]; intro i hi; simpa using (List.mem_filter.mp hi).2) h
+        refine ⟨?_, by rw [r2, hs1, ← hl], by rw [r3, hs1]⟩
+        rw [r1, hs1]
+        simp only [removeClass, List.filter_filter]
+        congr 1
+        funext c
+        simp [inNames, Bool.and_comm, ieq_comm c.name x]
+  · simp [h0] at h
+
+/-! ### the forest invariant over operation histories -/
+
+theorem desc_is_stored {cs : List Cls} {t a : Name} (h : Spec.Desc cs t a) : ∃ q ∈ cs, q.name = t := by
+  cases h with
+  | child hc _ => exact ⟨_, hc, rfl⟩
+  | trans _ hc _ => exact ⟨_, hc, rfl⟩
+
+/-- on a forest, membership (up to case) in the subtree list = being the class or a descendant -/
+theorem inNames_subtree {cs : List Cls} (hf : Forest cs) {n x : Name} :
+    inNames (subtreeList cs n) x = true ↔ ieq n x = true ∨ ∃ t, Spec.Desc cs t n ∧ ieq t x = true := by
+  rw [inNames_iff]
+  constructor
+  · rintro ⟨t, ht, hi⟩
+    rcases mem_subtreeList.mp ht with ht | rfl
+    · exact Or.inr ⟨t, (mem_subNames_deep hf).mp ht, hi⟩
+    · exact Or.inl hi
+  · rintro (hi | ⟨t, hd, hi⟩)
+    · exact ⟨n, mem_subtreeList.mpr (Or.inr rfl), hi⟩
+    · exact ⟨t, mem_subtreeList.mpr (Or.inl ((mem_subNames_deep hf).mpr hd)), hi⟩
+
+/-- for a stored class the case-insensitive test is exact -/
+theorem inNames_subtree_class {cs : List Cls} (hf : Forest cs) {n : Name} {c : Cls} (hc : c ∈ cs) :
+    inNames (subtreeList cs n) c.name = true ↔ ieq c.name n = true ∨ Spec.Desc cs c.name n := by
+  rw [inNames_subtree hf]
+  constructor
+  · rintro (hi | ⟨t, hd, hi⟩)
+    · exact Or.inl (ieq_symm hi)
+    · obtain ⟨q, hq, rfl⟩ := desc_is_stored hd
+      have := forest_unique hf q hq c hc hi
+      subst this; exact Or.inr hd
+  · rintro (hi | hd)
+    · exact Or.inl (ieq_symm hi)
+    · exact Or.inr ⟨c.name, hd, ieq_refl _⟩
+
+theorem forest_delete {cs : List Cls} (hf : Forest cs) (n : Name) :
+    Forest (cs.filter (fun c => !(inNames (subtreeList cs n) c.name))) := by
+  apply forest_filter hf
+  intro d hd hk p hp hch
+  cases hkp : inNames (subtreeList cs n) p.name with
+  | false => simp [hkp]
+  | true =>
+    exfalso
+    have hdn : inNames (subtreeList cs n) d.name = true := by
+      apply (inNames_subtree_class hf hd).mpr
+      rcases (inNames_subtree_class hf hp).mp hkp with hi | hdesc
+      · exact Or.inr (.child hd (isChild_congr hi hch))
+      · exact Or.inr (.trans hdesc hd hch)
+    simp [hdn] at hk
+
+theorem forest_step {s : State} (hf : Forest s.classes) (op : Op) : Forest (step s op).1.classes := by
+  cases op with
+  | create c =>
+    simp only [step]
+    cases h : createClass s c with
+    | error e => exact hf
+    | ok s' =>
+      obtain ⟨r, hr, rfl, hfresh⟩ := createClass_ok h
+      obtain ⟨hn, hs, hp⟩ := resolveClass_ok hr
+      refine .snoc hf (by rw [hn]; exact hfresh) ?_
+      intro sn hsn hne
+      rw [hs] at hsn
+      exact hp sn (normSuper_some hsn).1 hne
+  | add c =>
+    simp only [step]
+    cases h : addClass s c with
+    | error e => exact hf
+    | ok s' =>
+      obtain ⟨r, hr, rfl, hfresh⟩ := addClass_ok h
+      obtain ⟨hn, hs, hp⟩ := resolveClass_ok hr
+      refine .snoc hf (by rw [hn]; exact hfresh) ?_
+      intro sn hsn hne
+      rw [hs] at hsn
+      exact hp sn (normSuper_some hsn).1 hne
+  | modify c =>
+    simp only [step]
+    cases h : modifyClass s c with
+    | error e => exact hf
+    | ok s' =>
+      obtain ⟨orig, r, hfind, hr, rfl, _, _, hcompat⟩ := modifyClass_ok h
+      obtain ⟨hn, hs, _⟩ := resolveClass_ok hr
+      obtain ⟨horig, hoi⟩ := findClass_some hfind
+      apply forest_replace hf
+      intro x hx hxi
+      rw [hn] at hxi
+      have : x = orig := forest_unique hf x hx orig horig (ieq_trans hxi (ieq_symm hoi))
+      subst this
+      rw [hs]; exact hcompat
+  | delete n =>
+    simp only [step]
+    cases h : deleteClass s n with
+    | error e => exact hf
+    | ok s' =>
+      obtain ⟨_, hc, _, _⟩ := deleteClass_ok h
+      show Forest s'.classes
+      rw [hc]; exact forest_delete hf n
+  | get n f => simp only [step]; split <;> exact hf
+  | enumNames cn d => simp only [step]; split <;> exact hf
+  | enumClasses cn d f => simp only [step]; split <;> exact hf
+  | supers n => simp only [step]; split <;> exact hf
+  | addInst i => exact hf
+  | enumInsts n => simp only [step]; split <;> exact hf
+
+theorem forest_run : ∀ (ops : List Op) {s : State}, Forest s.classes → Forest (run s ops).1.classes
+  | [], s, hf => hf
+  | op :: ops, s, hf => by
+    simp only [run]
+    exact forest_run ops (forest_step hf op)
+
+/-! ### `_get_superclass_names` -/
+
+theorem forest_parent_exists {cs : List Cls} (hf : Forest cs) :
+    ∀ x ∈ cs, ∀ s, x.super = some s → s ≠ [] → hasClass cs s = true := by
+  induction hf with
+  | nil => intro x hx; simp at hx
+  | @snoc cs c hf hfr hp ih =>
+    intro x hx s hs hne
+    simp at hx
+    have lift : hasClass cs s = true → hasClass (cs ++ [c]) s = true := by
+      intro h
+      obtain ⟨p, hpm, hpi⟩ := hasClass_iff.mp h
+      exact hasClass_iff.mpr ⟨p, by simp [hpm], hpi⟩
+    rcases hx with hx | rfl
+    · exact lift (ih x hx s hs hne)
+    · exact lift (hp s hs hne)
+
+theorem findClass_append_left {cs : List Cls} {c : Cls} {n : Name} (h : hasClass cs n = true) :
+    findClass (cs ++ [c]) n = findClass cs n := by
+  unfold findClass
+  rw [List.find?_append]
+  obtain ⟨p, hpm, hpi⟩ := hasClass_iff.mp h
+  cases hfind : List.find? (fun c => ieq c.name n) cs with
+  | some x => simp
+  | none =>
+    have := List.find?_eq_none.mp hfind p hpm
+    simp [hpi] at this
+
+theorem findClass_append_right {cs : List Cls} {c : Cls} {n : Name} (h : hasClass cs n = false)
+    (hc : ieq c.name n = true) : findClass (cs ++ [c]) n = some c := by
+  unfold findClass
+  rw [List.find?_append]
+  have : List.find? (fun c => ieq c.name n) cs = none := by
+    apply List.find?_eq_none.mpr
+    intro x hx
+    have := hasClass_false_iff.mp h x hx
+    simp [this]
+  simp [this, hc]
+
+theorem findClass_mem_super {cs : List Cls} {n : Name} {x : Cls} (h : findClass cs n = some x) : x ∈ cs :=
+  (findClass_some h).1
+
+/-- the chain of a class of the old store does not see a class added later -/
+theorem superChain_append {cs : List Cls} {c : Cls} (hf : Forest cs) :
+    ∀ (f : Nat) (n : Name), hasClass cs n = true → superChain f (cs ++ [c]) n = superChain f cs n
+  | 0, n, _ => rfl
+  | f + 1, n, h => by
+    simp only [superChain, findClass_append_left h]
+    cases hx : findClass cs n with
+    | none => rfl
+    | some x =>
+      simp only
+      cases hs : x.super with
+      | none => rfl
+      | some s =>
+        simp only
+        by_cases he : s.isEmpty = true
+        · simp [he]
+        · simp only [he]
+          have hne : s ≠ [] := by intro h0; simp [h0] at he
+          have := forest_parent_exists hf x (findClass_mem_super hx) s hs hne
+          rw [superChain_append hf f s this]
+
+theorem superChain_mono_fuel {cs : List Cls} :
+    ∀ (f : Nat) (n : Name) (l : List Name), superChain f cs n = .ok l → superChain (f + 1) cs n = .ok l
+  | 0, n, l, h => by simp [superChain] at h
+  | f + 1, n, l, h => by
+    rw [superChain] at h ⊢
+    cases hx : findClass cs n with
+    | none => simp [hx] at h
+    | some x =>
+      simp only [hx] at h ⊢
+      cases hs : x.super with
+      | none => simpa [hs] using h
+      | some s =>
+        simp only [hs] at h ⊢
+        by_cases he : s.isEmpty = true
+        · simpa [he] using h
+        · simp only [he] at h ⊢
+          cases hr : superChain f cs s with
+          | error e => simp [hr] at h
+          | ok l' =>
+            rw [superChain_mono_fuel f s l' hr]
+            simpa [hr] using h
+
+/-- **termination of `_get_superclass_names`** on a forest: for every existing class the loop ends
+    within `classes.length` iterations (no RecursionError / endless loop, no KeyError) -/
+theorem superChain_terminates {cs : List Cls} (hf : Forest cs) :
+    ∀ n, hasClass cs n = true → ∃ l, superChain cs.length cs n = .ok l := by
+  induction hf with
+  | nil => intro n h; simp [hasClass] at h
+  | @snoc cs c hf hfr hp ih =>
+    intro n h
+    have hlen : (cs ++ [c]).length = cs.length + 1 := by simp
+    rw [hlen]
+    by_cases hold : hasClass cs n = true
+    · obtain ⟨l, hl⟩ := ih n hold
+      exact ⟨l, by rw [superChain_append hf _ n hold]; exact superChain_mono_fuel _ _ _ hl⟩
+    · have hold' : hasClass cs n = false := by simpa using hold
+      have hcn : ieq c.name n = true := by
+        obtain ⟨p, hpm, hpi⟩ := hasClass_iff.mp h
+        simp at hpm
+        rcases hpm with hpm | rfl
+        · have := hasClass_false_iff.mp hold' p hpm; simp [hpi] at this
+        · exact hpi
+      rw [superChain, findClass_append_right hold' hcn]
+      simp only
+      cases hs : c.super with
+      | none => exact ⟨[], rfl⟩
+      | some s =>
+        simp only
+        by_cases he : s.isEmpty = true
+        · exact ⟨[], by simp [he]⟩
+        · simp only [he]
+          have hne : s ≠ [] := by intro h0; simp [h0] at he
+          have hps := hp s hs hne
+          obtain ⟨l, hl⟩ := ih s hps
+          rw [superChain_append hf _ s hps, hl]
+          exact ⟨s :: l, rfl⟩
+
+/-- every name the loop collects is an ancestor of the class it started from -/
+theorem superChain_sound {cs : List Cls} :
+    ∀ (f : Nat) (n : Name) (l : List Name), superChain f cs n = .ok l →
+      ∀ a ∈ l, ∃ x, findClass cs n = some x ∧ Spec.Desc cs x.name a
+  | 0, n, l, h => by simp [superChain] at h
+  | f + 1, n, l, h => by
+    rw [superChain] at h
+    cases hx : findClass cs n with
+    | none => simp [hx] at h
+    | some x =>
+      simp only [hx] at h
+      cases hs : x.super with
+      | none => simp [hs] at h; subst h; intro a ha; simp at ha
+      | some s =>
+        simp only [hs] at h
+        by_cases he : s.isEmpty = true
+        · simp [he] at h; subst h; intro a ha; simp at ha
+        · simp only [he] at h
+          have hne : s ≠ [] := by intro h0; simp [h0] at he
+          cases hr : superChain f cs s with
+          | error e => simp [hr] at h
+          | ok l' =>
+            simp [hr] at h; subst h
+            intro a ha
+            simp at ha
+            have hxm := (findClass_some hx).1
+            rcases ha with rfl | ha
+            · exact ⟨x, rfl, .child hxm ⟨a, hs, hne, ieq_refl _⟩⟩
+            · obtain ⟨y, hy, hd⟩ := superChain_sound f s l' hr a ha
+              have hyi := (findClass_some hy).2
+              exact ⟨x, rfl, .trans hd hxm ⟨s, hs, hne, ieq_symm hyi⟩⟩
+
+/-! ### element resolution -/
+
+theorem setNewElem_ok {decls : List QDecl} {n : Name} {e e' : Elem} {inh : Option Elem}
+    (h : setNewElem decls n e inh = .ok e') :
+    e'.name = e.name ∧ e'.isMeth = e.isMeth ∧ e'.ty = e.ty ∧ e'.params = e.params ∧
+    (match inh with
+     | none => e'.origin = some n ∧ e'.propagated = some false ∧
+         resolveQuals decls e.quals [] false = .ok e'.quals
+     | some s => e'.origin = s.origin ∧ e'.propagated = some true ∧
+         resolveQuals decls e.quals s.quals true = .ok e'.quals) := by
+  unfold setNewElem at h
+  cases inh with
+  | none =>
+    simp only at h
+    cases hq : resolveQuals decls e.quals [] false with
+    | error err => simp [hq] at h
+    | ok qs => simp [hq] at h; subst h; simp [hq]
+  | some s =>
+    simp only at h
+    cases hq : resolveQuals decls e.quals s.quals true with
+    | error err => simp [hq] at h
+    | ok qs => simp [hq] at h; subst h; simp [hq]
+
+/-- what `_resolve_objects` does with one own element when a superclass exists -/
+theorem resolveElem_ok {decls : List QDecl} {n : Name} {supE : List Elem} {e e' : Elem}
+    (h : resolveElem decls n supE e = .ok e') :
+    e'.name = e.name ∧
+    ((hasElem supE e.name = false ∧ e'.origin = some n ∧ e'.propagated = some false) ∨
+     (hasElem supE e.name = true ∧ hasQual e.quals nOverride = true ∧
+        ∃ oname s, keyOfVal (overrideVal e.quals) = .ok oname ∧ findElem supE oname = some s ∧
+          e'.origin = s.origin ∧ e'.propagated = some true)) := by
+  unfold resolveElem at h
+  by_cases h1 : hasElem supE e.name = true
+  · simp only [h1] at h
+    by_cases h2 : hasQual e.quals nOverride = true
+    · simp only [h2] at h
+      simp at h
+      split at h
+      · simp at h
+      · cases hk : keyOfVal (overrideVal e.quals) with
+        | error err => simp [hk] at h
+        | ok oname =>
+          simp only [hk] at h
+          cases hfs : findElem supE oname with
+          | none => simp [hfs] at h
+          | some s =>
+            simp only [hfs] at h
+            split at h
+            · simp at h
+            · cases hs : setNewElem decls n e (some s) with
+              | error err => simp [hs] at h
+              | ok e1 =>
+                simp only [hs] at h
+                obtain ⟨hn, hm, _, _, ho, hp, _⟩ := setNewElem_ok hs
+                split at h
+                · cases hps : resolveParams e1.params ((findElem supE e.name).map (·.params) |>.getD []) with
+                  | error err => simp [hps] at h
+                  | ok ps =>
+                    simp [hps] at h; subst h
+                    exact ⟨hn, Or.inr ⟨h1, h2, oname, s, rfl, hfs, ho, hp⟩⟩
+                · simp at h; subst h
+                  exact ⟨hn, Or.inr ⟨h1, h2, oname, s, rfl, hfs, ho, hp⟩⟩
+    · simp [h2] at h
+  · simp only [h1] at h
+    simp at h
+    obtain ⟨hn, _, _, _, ho, hp, _⟩ := setNewElem_ok h
+    exact ⟨hn, Or.inl ⟨by simpa using h1, ho, hp⟩⟩
+
+theorem hasElem_eq_any_names (es : List Elem) (n : Name) :
+    hasElem es n = (es.map (·.name)).any (fun o => ieq o n) := by
+  simp [hasElem, List.any_map, Function.comp_def]
+
+theorem resolveElems_names {decls : List QDecl} {n : Name} {newE se r : List Elem}
+    (h : resolveElems decls n newE (some se) = .ok r) :
+    r.map (·.name) = Spec.exposedNames (newE.map (·.name)) (se.map (·.name)) := by
+  unfold resolveElems at h
+  simp only at h
+  cases hm : mapE (resolveElem decls n se) newE with
+  | error e => simp [hm] at h
+  | ok es =>
+    simp [hm] at h; subst h
+    have h1 : es.map (·.name) = newE.map (·.name) :=
+      mapE_ok_map (·.name) (·.name) (fun a b hab => (resolveElem_ok hab).1) hm
+    simp only [Spec.exposedNames, List.map_append, h1, List.map_map]
+    congr 1
+    rw [List.filter_map]
+    try simp only [List.map_map]
+    have : ∀ (l : List Elem), l.map ((·.name) ∘ copyElem) = l.map (·.name) := by
+      intro l; apply List.map_congr_left; intro a _; simp [copyElem]
+    rw [this]
+    congr 2
+    funext s
+    simp [hasElem_eq_any_names]
+
+theorem resolveElems_names_root {decls : List QDecl} {n : Name} {newE r : List Elem}
+    (h : resolveElems decls n newE none = .ok r) : r.map (·.name) = newE.map (·.name) := by
+  unfold resolveElems at h
+  simp only at h
+  exact mapE_ok_map (·.name) (·.name) (fun a b hab => (setNewElem_ok hab).1) h
+
+/-- a repository state some history of operations leads to, starting from an empty repository with
+    arbitrary qualifier declarations -/
+def Reachable (s : State) : Prop := ∃ decls ops, s = (run { decls := decls } ops).1
+
+theorem reachable_forest {s : State} (h : Reachable s) : Forest s.classes := by
+  obtain ⟨decls, ops, rfl⟩ := h
+  exact forest_run ops .nil
 
 end Proofs.Resolve
